@@ -39,6 +39,7 @@ func run(c *Ctx) {
 			ml.ScLostWakeup(false, hevc), ml.ScLostWakeup(true, hevc),
 			ml.ScAttachAfterClose(hevc), ml.ScAttachDuringClose(hevc),
 			ml.ScCounterRace(false, hevc), ml.ScCounterRace(true, hevc),
+			ml.ScCloseDuringJoin(false, hevc), ml.ScCloseDuringJoin(true, hevc),
 		} {
 			ml.RecordOutcome(c, o, "c03")
 		}
